@@ -14,15 +14,18 @@ Record index := IX {
   ix_mintime : Z; ix_maxtime : Z;     (* fixed at UnmarshalBinary *)
   ix_tombs : tombs }.
 
-(** UnmarshalBinary: minTime starts at MaxInt64, maxTime starts at 0 (sic); per key only the
-    first entry's min and the last entry's max are looked at. *)
+(** UnmarshalBinary: minTime starts at MaxInt64, maxTime at MinInt64 (after the repair of finding
+    timerange-max-negative; it used to start at 0); per key only the first entry's min and the
+    last entry's max are looked at.  (A file without keys cannot be written: WriteIndex returns
+    ErrNoValues, and the reader rejects an empty index section; for [] the fold gives
+    (MaxInt64, MinInt64), the same as the specification.) *)
 Definition first_min (ik : ikey) : Z := match ik_ents ik with e :: _ => emin e | [] => 0%Z end.
 Definition last_max (ik : ikey) : Z := emax (last (ik_ents ik) (E 0 0 0 0)).
 Definition index_of (all : list ikey) : index :=
   IX all (match all with ik :: _ => ik_key ik | [] => [] end)
      (ik_key (last all (IK [] 0 [])))
      (fold_left (fun m ik => Z.min m (first_min ik)) all MaxInt64)
-     (fold_left (fun m ik => Z.max m (last_max ik)) all 0%Z)
+     (fold_left (fun m ik => Z.max m (last_max ik)) all MinInt64)
      [].
 
 Definition nth_key (ks : list ikey) (i : nat) : key := ik_key (nth i ks (IK [] 0 [])).
